@@ -244,6 +244,9 @@ impl<'a, T> ChordsV2<'a, T> {
 
     fn drain_inputs(&mut self, drainq: &mut SmolQueue, active_layer: u16) {
         if self.ticks_to_ignore_chord > 0 {
+            // Releases must still be accounted for in the active chords,
+            // otherwise a chord released during the ignore window stays active forever.
+            self.drain_releases(drainq);
             drainq.extend(self.queue.drain(0..));
             return;
         }
